@@ -12,7 +12,7 @@ ROOT = os.path.dirname(os.path.dirname(os.path.abspath(__file__)))
 BY_FILE = {
     "qasm_simulator": ["C01", "C02", "C03", "C04", "C05", "C06", "C18"],
     "runtime_evaluator": ["C02", "C03", "C05", "C06", "C07", "C08", "C09", "C10", "C11", "C12", "C17", "C18"],
-    "cli.cpp": ["C17", "C18", "C05"],
+    "cli.cpp": ["C17", "C18", "C05", "C12", "C04"],
     "lexer": ["C13", "C14", "C15"],
     "parser": ["C13", "C14", "C10", "C07"],
     "semantic_analyser": ["C16", "C10", "C13", "C08", "C09"],
